@@ -162,6 +162,56 @@ fn direct(case: &Value, obs: &mut Obs) -> Res {
     check(&q, &text, &doc, true, obs)
 }
 
+pub const BOX_SELECTORS: &[&str] = &[
+    "'a'", "'b'", "''", "'0'", "\"a\"", "0", "1", "-1", "-2", "5", "*", ":", "1:", ":1", "::2", "::-1", "1:3", "-2:", "5:1:-2", "0:0", "?@", "?@.a", "?@==1", "?@.a==1", "?@[0]", "?!@.a",
+    "?@.*", "?@>1", "?@.a||@.b",
+];
+
+pub const BOX_DOCS: &[&str] = &[
+    "null", "1", "\"a\"", "[]", "{}", "[1]", "[1,2,3]", "[[1],[2,3],[]]", "[1,[1,[1]]]", "[null,false,0,\"\",[],{}]", "{\"a\":1}", "{\"a\":1,\"b\":2}", "{\"a\":{\"a\":1,\"b\":[1,2]},\"b\":{\"a\":2}}",
+    "{\"\":1,\"0\":2,\"a\":[0,1]}", "[{\"a\":1},{\"a\":2,\"b\":1},{\"b\":1},1,[{\"a\":1}]]", "{\"a\":[{\"a\":[1,2]},{\"a\":[]}],\"b\":[[1,2],[3]]}", "[[[[1]]]]", "{\"a\":null,\"b\":[null]}",
+    "[1,1,1,1,1,1]", "{\"a\":{\"a\":{\"a\":{\"a\":1}}}}", "[{\"a\":[1,{\"a\":1}]},[{\"a\":1},{\"a\":[0]}]]", "[0,1,2,3,4,5,6,7,8,9]",
+];
+
+/// bounded-exhaustive box shared by C01 and C02: every query of one segment (single selector or an
+/// ordered pair of selectors) and every query of two single-selector segments, child or descendant,
+/// over a fixed selector alphabet, on fixed documents
+pub fn small_box(obs: &mut Obs, thorough: bool, mut check_one: impl FnMut(&Query, &str, &J, &mut Obs) -> Res) -> Res {
+    let docs: Vec<J> = BOX_DOCS.iter().map(|d| J::from_value(&serde_json::from_str::<Value>(d).unwrap_or(Value::Null)).sorted()).collect();
+    let mut queries: Vec<String> = vec!["$".to_string()];
+    for d1 in ["", ".."] {
+        for s1 in BOX_SELECTORS {
+            queries.push(format!("${}[{}]", d1, s1));
+            for s2 in BOX_SELECTORS {
+                if thorough || d1.is_empty() {
+                    queries.push(format!("${}[{},{}]", d1, s1, s2));
+                }
+                for d2 in ["", ".."] {
+                    queries.push(format!("${}[{}]{}[{}]", d1, s1, d2, s2));
+                }
+            }
+        }
+    }
+    let mut n = 0u64;
+    for qt in &queries {
+        let q = match crate::recog::parse_ast(qt) {
+            Some(q) => q,
+            None => return Err(Failure::new("harness inconsistency: a query of the box is not in the recogniser's language", json!({"query": qt}))),
+        };
+        for d in &docs {
+            check_one(&q, qt, d, obs)?;
+            n += 1;
+        }
+    }
+    obs.boxes.push(json!({"box": "all queries of <= 2 segments (child/descendant) over a fixed alphabet of selectors, incl. ordered selector pairs in one segment, on fixed documents",
+        "selectors": BOX_SELECTORS.len(), "documents": docs.len(), "queries": queries.len(), "query_document_pairs": n, "exhaustive": true}));
+    Ok(())
+}
+
+fn box_small(obs: &mut Obs, thorough: bool) -> Res {
+    small_box(obs, thorough, |q, t, d, o| check(q, t, d, true, o))
+}
+
 pub fn prop() -> Prop {
     Prop {
         id: ID,
@@ -173,6 +223,7 @@ pub fn prop() -> Prop {
             "serde_json without preserve_order: member order of a Value is the sorted key order",
         ],
         subs: vec![
+            Sub { name: "box-small", kind: Kind::Exhaustive(box_small) },
             Sub {
                 name: "random-plain",
                 kind: Kind::Random {
